@@ -719,7 +719,7 @@ def run(tier: str, seed: int) -> Result:
         connect_raises = bool(cfg[3]) if len(cfg) > 3 else False
         error_slow = bool(cfg[4]) if len(cfg) > 4 else False
         depth, bound = (4, 1) if q else (6, 2)
-        left = max(5.0, (t_end - time.monotonic()) / (len(SEEDS) - i))
+        left = max(5.0, (t_end - time.monotonic()) / min(3, len(SEEDS) - i))  # most configurations finish far below their share: a hungry one may take a third of what is left
         st = explore_parallel(factory, (sd, supplied, hostname, connect_raises, error_slow), depth=depth, bound=bound, budget_s=left, split_depth=1)
         per.append({"seed": list(sd), "application_zeroconf": supplied, "hostname_address": hostname, "on_connect_raises": connect_raises, "on_connect_error_slow": error_slow, "depth_after_seed": depth, "deviation_bound": bound,
                     "executions": st.executions, "states": st.states, "transitions": st.transitions, "time_capped": st.time_capped})
